@@ -146,7 +146,7 @@ func genC18(repo string) (string, error) {
 	if err := o.skeleton(rm, "RuleManager", "GetRule", "skel_rm_GetRule", goast.SkelOpt{Calls: set("getRule", "Clone")}); err != nil {
 		return "", err
 	}
-	if err := o.skeleton(rm, "RuleManager", "tryCommitPatch", "skel_rm_tryCommitPatch", goast.SkelOpt{Conds: true, Calls: set("adjust", "buildRuleList", "trim", "savePatch", "commit")}); err != nil {
+	if err := o.skeleton(rm, "RuleManager", "tryCommitPatch", "skel_rm_tryCommitPatch", goast.SkelOpt{Conds: true, Calls: set("trim", "savePatch", "commit")}); err != nil {
 		return "", err
 	}
 	return o.sb.String(), nil
